@@ -378,6 +378,12 @@ def rule_f(ctx):
     dispatch.rule_routing(ctx, 'C01.e')
 
 
+def rule_h(ctx):
+    """Elements of the library's own stream sources reach the subscriber once each (shared C06.e)."""
+    from .sources import rule_source
+    rule_source(ctx, 'C06.e')
+
+
 def rule_g(ctx):
     """What each handler does for each event is the protocol's reaction (delivery, emission, credit, cancellation)."""
     from .reactions import rule_reactions
@@ -396,4 +402,4 @@ def rule_d(ctx):
     c03f(ctx)
 
 
-RULES = [('C01.a', rule_a), ('C01.b', rule_b), ('C01.c', rule_c), ('C01.d', rule_e), ('C01.e', rule_f), ('C01.f', rule_g), ('C05.a+C05.f+C03.b+C03.c+C03.f', rule_d)]
+RULES = [('C01.a', rule_a), ('C01.b', rule_b), ('C01.c', rule_c), ('C01.d', rule_e), ('C01.e', rule_f), ('C01.f', rule_g), ('C06.e', rule_h), ('C05.a+C05.f+C03.b+C03.c+C03.f', rule_d)]
